@@ -60,7 +60,10 @@ def run(ctx):
         starts = [b for (b, l) in g.succ[t.id] if l == "T"]
         rr = g.reach(starts, include_src=True)
         ctx.check("R2-out-of-date-refused", where, g.exit not in rr and any(isinstance(g.nodes[i].ast, ast.Raise) and "BoundBranchOutOfDate" in norm(g.nodes[i].ast) for i in rr if g.nodes[i].kind == "stmt"), "the mismatch branch raises BoundBranchOutOfDate")
-    k2_unreachable(ctx, "R2-double-bound-refused", where, g, {"master_bound_location": True}, setb + lockm, "a master that is itself bound is refused")
+    from ..astutil import bound_names, one
+
+    mbl = one(bound_names(fn, lambda t, n: t == "self.master_branch.get_bound_location()"), "master_bound_location = self.master_branch.get_bound_location()", where)
+    k2_unreachable(ctx, "R2-double-bound-refused", where, g, {mbl: True, f"not {mbl}": False, f"{mbl} is not None": True, f"{mbl} is None": False}, setb + lockm, "a master that is itself bound is refused")
     gm = need(where, calling(g, attr="get_master_branch"), "get_master_branch()")
     fnc, gc, wherec = fn_cfg(ctx, CM, "Commit.commit")
     clr = [i for i in gc.find(assigns_to("self.master_branch")) if norm(gc.nodes[i].ast.value) == "None"]
@@ -79,30 +82,33 @@ def run(ctx):
     k1_before(ctx, "R4-checks-before-builder", wherec, gc, co, gbld, "_check_out_of_date_tree precedes get_commit_builder")
     fn, g, where = fn_cfg(ctx, CM, "Commit._check_out_of_date_tree")
     rs = [n.id for n in g.nodes if n.kind == "stmt" and isinstance(n.ast, ast.Raise) and "OutOfDateTree" in norm(n.ast)]
-    tests = [n for n in g.nodes if n.kind == "test" and norm(n.ast) == "master_last != first_tree_parent"]
+    ftp = one(bound_names(fn, lambda t, n: t == "self.work_tree.get_parent_ids()[0]"), "first_tree_parent = self.work_tree.get_parent_ids()[0]", where)
+    tests = [n for n in g.nodes if n.kind == "test" and isinstance(n.ast, ast.Compare) and len(n.ast.ops) == 1 and isinstance(n.ast.ops[0], ast.NotEq) and ftp in (norm(n.ast.left), norm(n.ast.comparators[0]))]
     ok = bool(rs) and len(tests) == 1
+    v_ml = "master_last"
     if ok:
-        g2 = g.assume({"master_last != first_tree_parent": True, "master_last != breezy.revision.NULL_REVISION": True})
+        v_ml = [x for x in (norm(tests[0].ast.left), norm(tests[0].ast.comparators[0])) if x != ftp][0]
+        g2 = g.assume({norm(tests[0].ast): True, f"{v_ml} != breezy.revision.NULL_REVISION": True})
         ok = g.exit not in g2.reach([tests[0].id])
     ctx.check("R4-tree-out-of-date-refused", where, ok, "a tree whose first parent is not the master tip is refused (OutOfDateTree)")
 
     # R4b: the out-of-date check re-reads the *master* tip, and does so after the master was write-locked
     srcs = [(norm(s.targets[0]), s.value) for s in walk_own(fn) if isinstance(s, ast.Assign)]
-    ml = [v for t, v in srcs if t == "master_last" or t.endswith("master_last)") or "master_last" in t]
+    ml = [v for t, v in srcs if v_ml in t.replace("(", " ").replace(")", " ").replace(",", " ").split()]
     ok = bool(ml) and all(isinstance(v, ast.Call) and call_recv(v) == "self.master_branch" and call_attr(v) in ("last_revision", "last_revision_info") for v in ml)
     ctx.check("R4-master-tip-reread-under-lock", where, ok, "the tip compared with the tree's parent is read from self.master_branch (not assumed from the local branch)", construct="; ".join(norm(v) for v in ml), message="the out-of-date check no longer re-reads the master's tip: a master that moved between the unlocked comparison and the lock grant is not noticed and its history is overwritten")
     k1_before(ctx, "R4-master-tip-reread-under-lock", wherec, gc, cb, co, "the master is locked (_check_bound_branch) before its tip is re-read (_check_out_of_date_tree)")
 
     # ---- R6: pull / push into a bound branch update the master first -----------------
     BRF = "breezy/branch.py"
-    fnp, gp, wherep = fn_cfg(ctx, BRF, "GenericInterBranch.pull")
+    fnp, gp, wherep = fn_cfg(ctx, BRF, "GenericInterBranch.pull", roles={"master_branch": ("assign", "~self\\.target\\.get_master_branch\\(.*\\)")})
     mp = need(wherep, calling(gp, attr="pull", recv="master_branch"), "master_branch.pull(...)")
     lp = need(wherep, calling(gp, attr="_pull", recv="self"), "self._pull(...)")
     ok, w = gp.assume({"master_branch": True}).always_before(mp, lp)
     ctx.check("R6-pull-master-first", wherep, ok, "pull into a bound branch updates the master before the local branch (a refusal by the master leaves the local branch untouched)", message="pull moves the local branch before the master accepted the revisions: a refused pull leaves the checkout diverged from its master", witness=gp.show_path(w) if w else None)
     gm = need(wherep, calling(gp, attr="get_master_branch"), "get_master_branch")
     k2_unreachable(ctx, "R6-pull-local-skips-master", wherep, gp, {"local": True, "not local": False}, gm, "pull --local does not look the master up")
-    fnq, gq, whereq = fn_cfg(ctx, BRF, "GenericInterBranch.push")
+    fnq, gq, whereq = fn_cfg(ctx, BRF, "GenericInterBranch.push", roles={"master_branch": ("assign", "~self\\.target\\.get_master_branch\\(.*\\)"), "master_inter": ("assign", "InterBranch.get(self.source, {master_branch})")})
     mq = need(whereq, calling(gq, attr="_basic_push", recv="master_inter"), "master_inter._basic_push(...)")
     lq = [i for i in calling(gq, attr="_basic_push", recv="self") if i in gq.reach(mq) or any(set(mq) & gq.reach([gq.entry], avoid=[i], include_src=True) for _ in [0])]
     bound_local = [i for i in calling(gq, attr="_basic_push", recv="self") if i in gq.reach(calling(gq, attr="get_master_branch"))]
@@ -110,7 +116,9 @@ def run(ctx):
     ctx.check("R6-push-master-first", whereq, ok, "push to a bound branch updates its master before the branch itself", witness=gq.show_path(w) if w else None)
 
     # ---- R5 -----------------------------------------------------------------
-    fn, g, where = fn_cfg(ctx, UC, "uncommit")
+    from .c16 import UNCOMMIT_ROLES
+
+    fn, g, where = fn_cfg(ctx, UC, "uncommit", roles=UNCOMMIT_ROLES)
     sl = need(where, calling(g, attr="set_last_revision_info"), "set_last_revision_info calls")
     m = [i for i in sl if any(call_recv(c) == "master" for c in g.nodes[i].calls())]
     l = [i for i in sl if any(call_recv(c) == "branch" for c in g.nodes[i].calls())]
